@@ -1,1 +1,52 @@
-From DV Require Import Prelude.Base Model.Node.
+(* C07 — every received request gets exactly one answer of the right kind; answers are never answered
+   Statements copied from the proof files; each is closed by `exact`. *)
+From DV Require Prelude.Base Model.Ids Proofs.IdsP Model.Node Proofs.NodeB.
+From Coq Require String List Lia Bool Arith ZArith.
+
+Module FromNodeB.
+Import DV.Prelude.Base DV.Model.Node DV.Proofs.NodeB.
+Import Coq.Strings.String.
+
+(* C07: send_message hands exactly the given message to the given connection *)
+Theorem send_message_out n cid m : snd (send_message n cid m) = [OQueue cid m].
+Proof. exact (@NodeB.send_message_out n cid m). Qed.
+
+(* C07: one dispatched message yields at most one queued message; it is an answer, on the same
+   connection, to a REQUEST, and carries that request's command, application id and identifiers *)
+Theorem C07_dispatch_answers n cid m n' outs :
+  dispatch n cid m = (n', outs) ->
+  (forall cid' a, List.In (OQueue cid' a) outs ->
+     cid' = cid /\ o_req a = false /\ m_req m = true /\
+     o_cmd a = m_cmd m /\ o_app a = m_app m /\ o_hbh a = m_hbh m /\ o_e2e a = m_e2e m)
+  /\ (List.length (List.filter is_queue outs) <= 1)%nat.
+Proof. exact (@NodeB.C07_dispatch_answers n cid m n' outs). Qed.
+
+(* C07: an answer is never answered: dispatching a non-request queues nothing *)
+Theorem C07_no_answer_to_answer n cid m :
+  m_req m = false -> forall cid' a, ~ List.In (OQueue cid' a) (snd (dispatch n cid m)).
+Proof. exact (@NodeB.C07_no_answer_to_answer n cid m). Qed.
+
+(* C07: every event other than a network read or an application's answer queues REQUESTS only
+   (watchdog, capabilities exchange, disconnect, application requests): answers come from nowhere else *)
+Theorem C07_answers_only_from n ds e :
+  (forall cid ms, e <> ERecv cid ms) -> (forall i m, e <> EAppAnswer i m) ->
+  forall cid a, List.In (OQueue cid a) (snd (step n ds e)) -> o_req a = true.
+Proof. exact (@NodeB.C07_answers_only_from n ds e). Qed.
+
+(* C07: every answer queued while a batch of frames is dispatched answers some request of the batch
+   (same connection, same four fields); there are at most as many answers as requests *)
+Theorem C07_dispatch_all_answers ms : forall n cid n' outs,
+  dispatch_all n cid ms = (n', outs) ->
+  (forall cid' a, List.In (OQueue cid' a) outs ->
+     cid' = cid /\ o_req a = false /\
+     exists m, List.In m ms /\ m_req m = true /\
+       o_cmd a = m_cmd m /\ o_app a = m_app m /\ o_hbh a = m_hbh m /\ o_e2e a = m_e2e m)
+  /\ (List.length (List.filter is_queue outs) <= List.length (List.filter m_req ms))%nat.
+Proof. exact (@NodeB.C07_dispatch_all_answers ms). Qed.
+End FromNodeB.
+
+Print Assumptions FromNodeB.send_message_out.
+Print Assumptions FromNodeB.C07_dispatch_answers.
+Print Assumptions FromNodeB.C07_no_answer_to_answer.
+Print Assumptions FromNodeB.C07_answers_only_from.
+Print Assumptions FromNodeB.C07_dispatch_all_answers.
